@@ -431,6 +431,15 @@ def _finite_differences(col, rule="C16.R3"):
             "the Jacobian is taken at the current point with the residuals just evaluated there", "")
 
 
+def _by_parameter(pos, kws, names):
+    """the arguments of a call by parameter name, whether passed positionally or by keyword (star arguments: cannot tell)"""
+    if any(a[:1] == ("uop",) for a in pos) or "**" in dict(kws) or len(pos) > len(names):
+        raise AnalysisError("call with star or surplus arguments -- cannot tell which parameter receives what")
+    out = dict(zip(names, pos))
+    out.update(dict(kws))
+    return out
+
+
 def _truncation_options(col, rule="C16.R4"):
     """the rcond / sing_val_cutoff a Jacobian step solves with are those given to *this* call (None = no truncation): they are
     handed down unchanged Optimize.step -> JacobianSolver.step -> SVD.lstsq and never kept in solver state"""
@@ -440,7 +449,7 @@ def _truncation_options(col, rule="C16.R4"):
     if not calls:
         raise AnalysisError("JacobianSolver.step: no lstsq call -- cannot decide")
     for ev, m in calls:
-        kws = dict(m["k"])
+        kws = _by_parameter(m["a"], m["k"], ("b", "rcond", "sing_val_cutoff"))
         for name in ("rcond", "sing_val_cutoff"):
             p = jsx.pnamed(name) if name in jsx.sym.params else None
             got = kws.get(name)
@@ -448,7 +457,7 @@ def _truncation_options(col, rule="C16.R4"):
                     f"lstsq is called with the `{name}` argument of this very step() call", f"passed: {S.show(got) if got is not None else 'nothing'}")
     osx = octx(repo, "Optimize", "step")
     for ev, m in osx.calls_some(("call", ("attr", S.sattr("solver"), "step"), S.V("a"), S.V("k"))):
-        kws = dict(m["k"])
+        kws = _by_parameter(m["a"], m["k"], ("rcond", "sing_val_cutoff", "broyden"))
         for name in ("rcond", "sing_val_cutoff"):
             p = osx.pnamed(name) if name in osx.sym.params else None
             col.add(rule, f"Optimize.step#{name}-handed-to-the-solver", p is not None and kws.get(name) == p, osx.loc(ev),
